@@ -153,6 +153,11 @@ def check_C07(ctx, replay=None):
         res = run_tlc(ctx, "Gating", cfg, workers=4, tags=("TABLE",), timeout=900)
         _tlc_must_hold(ctx, res, "c07:tlc-invariant")
         rows += [v for t, v in res.prints if t == "TABLE"]
+    if not quick:
+        dv = run_tlc(ctx, "Gating", "MCGatingDev.cfg", workers=2, timeout=600, tags=(), expect_error=True)
+        if dv.ok:
+            raise core.ToolError("specification self-test failed: MCGatingDev.cfg (a stream read addressed to a sibling partition "
+                                 "is gated by the sibling's watermark) should violate SiblingRevealsNothingUnconfirmed")
     table = ctx.path("gating-table.ndjson")
     with open(table, "w") as f:
         for r in rows:
